@@ -34,6 +34,9 @@ type layItem struct {
 	Mdoc      bool   `json:"mdoc"`
 	After     bool   `json:"after"`
 	Gap       int    `json:"gap"`
+	Long      bool   `json:"long"`
+	Nm        string `json:"nm"`
+	name      string // interface name fixed by layNames
 }
 type layOut struct {
 	K     string `json:"k"`
@@ -92,7 +95,35 @@ func layFirstConv(l *layCase) *layItem {
 	return nil
 }
 
+// layNames fixes the names of interfaces that are called relative to another one.
+func layNames(l *layCase) {
+	for i := range l.Layout.Items {
+		it := &l.Layout.Items[i]
+		if it.K != "intf" {
+			continue
+		}
+		switch it.Nm {
+		case "long":
+			base := layIntfName(it)
+			it.name = base + strings.Repeat("X", 40-len(base))
+		case "prefix":
+			for j := range l.Layout.Items {
+				o := &l.Layout.Items[j]
+				if j != i && o.K == "intf" && (o.Named || o.Marked) && o.Nm != "prefix" {
+					it.name = layIntfName(o) + "Storage"
+				}
+			}
+			if it.name == "" {
+				core.Machinery("layout: interface %s is to be called like another converter interface, but there is none", it.ID)
+			}
+		}
+	}
+}
+
 func layIntfName(it *layItem) string {
+	if it.name != "" {
+		return it.name
+	}
 	switch {
 	case it.Named:
 		return "Convergen"
@@ -104,6 +135,14 @@ func layIntfName(it *layItem) string {
 		return "Look" + up(it.ID)
 	}
 	return "Plain" + up(it.ID)
+}
+
+// layFiller makes a comment line much longer than a directive line.
+func layFiller(it *layItem) string {
+	if !it.Long {
+		return ""
+	}
+	return strings.Repeat(" and it goes on", 9)
 }
 
 const layTypes = `package p
@@ -155,7 +194,11 @@ func layRender(l *layCase) map[string]string {
 		it := &lay.Items[i]
 		switch it.K {
 		case "float":
-			fmt.Fprintf(&sb, "// floating comment tokFL%s attached to nothing\n\n", it.ID)
+			fmt.Fprintf(&sb, "// floating comment tokFL%s attached to nothing%s\n", it.ID, layFiller(it))
+			if it.Gen {
+				fmt.Fprintf(&sb, "//go:generate echo tokGEN%s\n", it.ID)
+			}
+			sb.WriteString("\n")
 			continue
 		case "tmark":
 			fmt.Fprintf(&sb, "// TMark%s is a struct, not an interface tokDOC%s.\n// :convergen\ntype TMark%s struct {\n\tA int\n}\n\n", up(it.ID), it.ID, up(it.ID))
@@ -163,6 +206,8 @@ func layRender(l *layCase) map[string]string {
 		case "decl":
 			if it.Doc && it.Form == "blockvar" {
 				fmt.Fprintf(&sb, "/* Keep%s is documented tokDOC%s\n   in a block comment. */\n", up(it.ID), it.ID)
+			} else if it.Doc && it.Long {
+				fmt.Fprintf(&sb, "// Keep%s is documented tokDOC%s%s\n", up(it.ID), it.ID, layFiller(it))
 			} else if it.Doc {
 				fmt.Fprintf(&sb, "// Keep%s is documented tokDOC%s\n// on two lines.\n", up(it.ID), it.ID)
 			}
@@ -463,6 +508,9 @@ func layDescribe(l *layCase) string {
 			if it.Trail {
 				a += "+trailing"
 			}
+			if it.Long {
+				a += "+longline"
+			}
 			parts = append(parts, fmt.Sprintf("%s[%s]", it.ID, a))
 		case "intf":
 			a := layIntfName(&it)
@@ -483,7 +531,14 @@ func layDescribe(l *layCase) string {
 			a += fmt.Sprintf(" gap=%d", it.Gap)
 			parts = append(parts, fmt.Sprintf("%s[%s]", it.ID, a))
 		default:
-			parts = append(parts, it.ID+"["+it.K+"]")
+			a := it.K
+			if it.Gen {
+				a += "+generate"
+			}
+			if it.Long {
+				a += "+longline"
+			}
+			parts = append(parts, it.ID+"["+a+"]")
 		}
 	}
 	return fmt.Sprintf("layout{%s} build=%s pkgdoc=%v imports=%s sibling=%s", strings.Join(parts, " "), l.Layout.Build, l.Layout.Pkgdoc, l.Layout.Imports, l.Layout.Sibling)
@@ -509,6 +564,7 @@ func layEnumerate(c *core.Ctx, cfg string, keepOneIn int, coreCase func(*layCase
 				core.Machinery("bad CASE: %v: %s", err, js)
 			}
 			l.raw = js
+			layNames(&l)
 			if keepOneIn > 1 && !(coreCase != nil && coreCase(&l)) && hashMod(js, c.Seed, keepOneIn) != 0 {
 				return
 			}
@@ -674,7 +730,10 @@ func C03(c *core.Ctx) {
 	c.Set("exhaustive", c.Thorough())
 	c.Sample(map[string]any{"layout": layDescribe(cases[len(cases)/2]), "setup": layRender(cases[len(cases)/2])["p/setup.go"]})
 	c.Sample(map[string]any{"layout": layDescribe(cases[0]), "setup": layRender(cases[0])["p/setup.go"]})
-	c.Set("rule", "every shape of a converter interface (named Convergen / marked; doc, go:generate line, 1-2 methods, very short names so that the body is shorter than the 21-character placeholder, one-line form, method docs, trailing comment, comment after the closing brace, 0/1 blank lines to the next declaration) x preceding declaration x following declaration / adjacent second converter interface / plain interface (4608 layouts, TLC Selection.tla); each is one setup file; exit 0 and one function per method required. Distinct = distinct layouts")
+	// a :conv may name a function that the same run generates, from this or another converter interface, wherever
+	// the two stand in the file (ConvRef.tla): every such placement is a well-formed file
+	convRefRun(c, true)
+	c.Set("rule", "every shape of a converter interface (named Convergen / marked; doc, go:generate line, 1-2 methods, very short names so that the body is shorter than the 21-character placeholder, one-line form, method docs, trailing comment, comment after the closing brace, 0/1 blank lines to the next declaration) x preceding declaration x following declaration / adjacent second converter interface / plain interface (4608 layouts, TLC Selection.tla); each is one setup file; exit 0 and one function per method required; plus the 192 placements of ConvRef.tla (a :conv naming a function generated in the same run), accepted whenever the specification accepts them. Distinct = distinct layouts")
 }
 
 func c03Deviation(r *layRun) string { return "" }
